@@ -263,15 +263,20 @@ class ListingParser(LineParser):
         else:
             lines = ()
 
-        sample_lines = []
+        # The "total 123" line that ls -l (and servers which run it) puts
+        # in front of a listing is no entry.
+        lines = (
+            line for line in lines
+            if not re.match(r'total\s+\d+\s*$', line)
+        )
 
-        for line in lines:
-            if len(sample_lines) > 100:
-                break
-
-            sample_lines.append(line)
+        # (A sample is taken without losing a line of the listing.)
+        sample_lines = list(itertools.islice(lines, 101))
 
         lines = itertools.chain(sample_lines, lines)
+
+        if not sample_lines:
+            return iter(())
 
         self.guess_type(sample_lines)
 
